@@ -506,6 +506,10 @@ func (e *stubExporter) do(_ context.Context, payload any) error {
 		e.w.deliveries = append(e.w.deliveries, delivery{Comp: e.key, ID: it.ID, Trail: it.Trail})
 	}
 	e.w.mu.Unlock()
+	if e.mutates {
+		// a mutating exporter really mutates what it was given: any sibling that shares the object will see the tag
+		tagTrail(e.sig, payload, "MUTATED-BY:"+e.key)
+	}
 	if pl.FailConsume {
 		return errStubConsume
 	}
